@@ -27,6 +27,7 @@ abbrev Windows := List (Rat × Rat)   -- (begin, length)
 
 inductive Err where
   | typeError | keyError | valueError | programOverwrite | unknownDevice
+  | deviceFault     -- a RuntimeError of a (fault-injecting) device that the setup does not catch
   deriving DecidableEq, Repr
 
 inductive Kind where
@@ -89,6 +90,9 @@ structure Awg where
   nmk : Nat
   progs : List (Name × Upload)
   armed : Option Name
+  /-- test-bench fault injection (real drivers may raise `RuntimeError`): 0 healthy, 1 `remove` raises,
+  2 `arm` raises -/
+  fault : Nat := 0
   deriving DecidableEq, Repr
 
 def Awg.size (g : Awg) : Kind → Nat
@@ -98,7 +102,20 @@ def Awg.size (g : Awg) : Kind → Nat
 structure Dac where
   progs : List (Name × List (Mask × Windows))
   armed : Option Name
+  /-- fault injection: non-zero = `delete_program` raises `RuntimeError` -/
+  fault : Nat := 0
   deriving DecidableEq, Repr
+
+/-- what one round of the AWG loop of `_remove_from_devices` does to a generator: `arm(None)`, then
+`remove(name)`, a `RuntimeError` of either is caught (per device) and turned into a warning -/
+def awgDrop (n : Name) (g : Awg) : Awg :=
+  if g.fault = 0 then { g with progs := adel n g.progs, armed := none }
+  else if g.fault = 2 then g                       -- `arm(None)` raised: nothing happened
+  else { g with armed := none }                    -- disarmed, then `remove` raised
+
+/-- the DAC loop of `_remove_from_devices`: `delete_program(name)`, a `RuntimeError` is caught -/
+def dacDrop (n : Name) (g : Dac) : Dac :=
+  if g.fault = 0 then { g with progs := adel n g.progs } else g
 
 /-- what the caller hands to `register_program` -/
 structure Program where
@@ -153,6 +170,8 @@ inductive Op where
   | clear
   | arm (n : Name)
   | run (n : Name)
+  | setFaultAwg (a : AwgId) (mode : Nat)     -- test bench, not a HardwareSetup call
+  | setFaultDac (d : DacId) (mode : Nat)
   deriving Repr
 
 /-! ## wiring queries -/
@@ -274,17 +293,21 @@ def register (fix : Bool) (s : State) (n : Name) (p : Program) (cbOk update : Bo
       if !update && (part.any fun a => match s.awgs[a]? with
                                         | some g => hasKey n g.progs
                                         | none => false) then .error .programOverwrite
+      -- `DummyAWG.upload(force=True)` first calls `self.remove(name)`: a refusing generator raises
+      else if update && (part.any fun a => match s.awgs[a]? with
+                                          | some g => hasKey n g.progs && decide (g.fault = 1)
+                                          | none => false) then .error .deviceFault
       else
         let staleA : List AwgId := if fix then oldAwgs s n else []
         let staleD : List DacId := if fix then oldDacs s n else []
         .ok { s with
           awgs := s.awgs.mapIdx fun a g =>
             if a ∈ part then { g with progs := aput n (mkUpload p.pid asg a g) g.progs }
-            else if a ∈ staleA then { g with progs := adel n g.progs, armed := none }
+            else if a ∈ staleA then awgDrop n g
             else g,
           dacs := s.dacs.mapIdx fun d g =>
             if d ∈ dpart then { g with progs := aput n (maskDict masg d) g.progs }
-            else if d ∈ staleD then { g with progs := adel n g.progs }
+            else if d ∈ staleD then dacDrop n g
             else g,
           registered := aput n { pid := p.pid, channels := p.channels, meas := meas, awgs := part, dacs := dpart }
                           s.registered }
@@ -297,8 +320,8 @@ def remove (s : State) (n : Name) : State :=
   | some r =>
     { s with
       registered := adel n s.registered,
-      awgs := s.awgs.mapIdx fun a g => if a ∈ r.awgs then { g with progs := adel n g.progs, armed := none } else g,
-      dacs := s.dacs.mapIdx fun d g => if d ∈ r.dacs then { g with progs := adel n g.progs } else g }
+      awgs := s.awgs.mapIdx fun a g => if a ∈ r.awgs then awgDrop n g else g,
+      dacs := s.dacs.mapIdx fun d g => if d ∈ r.dacs then dacDrop n g else g }
 
 /-- registered program names whose record lists generator `a` -/
 def recordedOnAwg (s : State) (a : AwgId) (n : Name) : Bool :=
@@ -321,12 +344,14 @@ def clearWith (fix : Bool) (s : State) : State :=
     awgs := s.awgs.mapIdx fun a g =>
       if knownAwg s a then { g with progs := [] }
       else if fix then
-        { g with progs := g.progs.filter (fun kv => !recordedOnAwg s a kv.1),
-                 armed := if s.registered.any (fun nr => decide (a ∈ nr.2.awgs)) then none else g.armed }
+        { g with progs := if g.fault = 0 then g.progs.filter (fun kv => !recordedOnAwg s a kv.1) else g.progs,
+                 armed := if g.fault ≠ 2 ∧ s.registered.any (fun nr => decide (a ∈ nr.2.awgs)) then none
+                          else g.armed }
       else g,
     dacs := s.dacs.mapIdx fun d g =>
-      if knownDac s d then { progs := [], armed := none }
-      else if fix then { g with progs := g.progs.filter (fun kv => !recordedOnDac s d kv.1) }
+      if knownDac s d then { g with progs := [], armed := none }
+      else if fix then { g with progs := if g.fault = 0 then g.progs.filter (fun kv => !recordedOnDac s d kv.1)
+                                        else g.progs }
       else g }
 
 def clear (s : State) : State := clearWith true s
@@ -335,6 +360,8 @@ def arm (s : State) (n : Name) : Except Err State :=
   match aget n s.registered with
   | none => .error .keyError
   | some r =>
+    -- `awg.arm(…)` of a generator whose `arm` raises is not caught by `arm_program`
+    if (s.awgs.zipIdx.any fun gi => knownAwg s gi.2 && decide (gi.1.fault = 2)) then .error .deviceFault else
     .ok { s with
       awgs := s.awgs.mapIdx fun a g =>
         if knownAwg s a then { g with armed := if a ∈ r.awgs then some n else none } else g,
@@ -351,6 +378,14 @@ def stepWith (fix : Bool) (s : State) : Op → Except Err State
   | .clear => .ok (clearWith fix s)
   | .arm n => arm s n
   | .run n => arm s n
+  | .setFaultAwg a mode =>
+    match s.awgs[a]? with
+    | some _ => .ok { s with awgs := s.awgs.mapIdx fun i g => if i = a then { g with fault := mode } else g }
+    | none => .error .unknownDevice
+  | .setFaultDac d mode =>
+    match s.dacs[d]? with
+    | some _ => .ok { s with dacs := s.dacs.mapIdx fun i g => if i = d then { g with fault := mode } else g }
+    | none => .error .unknownDevice
 
 /-- the repaired code -/
 def step (s : State) (op : Op) : Except Err State := stepWith true s op
@@ -381,6 +416,15 @@ def rewires (s : State) : Op → Bool
   | .setMeasurement m _ _ => measUsed s m
   | .setMeasurementSingle m _ _ => measUsed s m
   | .rmChannel id => chanUsed s id
+  | .setFaultAwg _ _ => true      -- a device that refuses commands is outside the routing statement
+  | .setFaultDac _ _ => true
+  | _ => false
+
+/-- the only operation the record invariant does not survive: a refusing device starts to obey again while
+it may still hold what it refused to drop -/
+def heals (s : State) : Op → Bool
+  | .setFaultAwg a mode => decide (mode = 0) && (match s.awgs[a]? with | some g => decide (g.fault ≠ 0) | none => false)
+  | .setFaultDac d mode => decide (mode = 0) && (match s.dacs[d]? with | some g => decide (g.fault ≠ 0) | none => false)
   | _ => false
 
 /-- every operation of the history leaves the wiring of the names used by registered programs alone -/
@@ -462,6 +506,9 @@ structure Inv (s : State) : Prop where
               ∃ r, aget n s.registered = some r ∧ (ParticipatesD s r.meas d ∧ MasksOK s r d w)
   dacHolds : ∀ d g, s.dacs[d]? = some g → ∀ n r, aget n s.registered = some r →
               ParticipatesD s r.meas d → (aget n g.progs).isSome = true
+  /-- every device obeys (the routing statement is about devices that do what they are told) -/
+  healthyA : ∀ g ∈ s.awgs, g.fault = 0
+  healthyD : ∀ g ∈ s.dacs, g.fault = 0
 
 /-! ### executable judge -/
 
@@ -486,8 +533,12 @@ def dacHeldB (s : State) : Bool := allIdx s.dacs fun d g => allGet g.progs fun n
 def dacHoldsB (s : State) : Bool := allIdx s.dacs fun d g => allGet s.registered fun n r =>
   decide (ParticipatesD s r.meas d → (aget n g.progs).isSome = true)
 
+def healthyAB (s : State) : Bool := s.awgs.all fun g => decide (g.fault = 0)
+def healthyDB (s : State) : Bool := s.dacs.all fun g => decide (g.fault = 0)
+
 def invB (s : State) : Bool :=
-  wfChanB s && wfMeasB s && regAwgsB s && regDacsB s && awgHeldB s && awgHoldsB s && dacHeldB s && dacHoldsB s
+  wfChanB s && wfMeasB s && regAwgsB s && regDacsB s && awgHeldB s && awgHoldsB s && dacHeldB s && dacHoldsB s &&
+  healthyAB s && healthyDB s
 
 /-- the first clause that fails (for replay files) -/
 def judge (s : State) : String :=
@@ -499,6 +550,7 @@ def judge (s : State) : String :=
   else if !awgHoldsB s then "awg-misses-program"
   else if !dacHeldB s then "dac-holds-unregistered-or-unrelated-or-wrong-windows"
   else if !dacHoldsB s then "dac-misses-program"
+  else if !healthyAB s || !healthyDB s then "refusing-device"
   else "ok"
 
 /-! ### the record invariant (independent of the wiring, hence also of re-wiring) -/
@@ -507,14 +559,14 @@ def judge (s : State) : String :=
 the wiring: it survives `set_channel` / `set_measurement` / `rm_channel` on names in use, and it is what makes
 `remove_program` and `clear_programs` reach every holder. -/
 structure RecInv (s : State) : Prop where
-  awgRec : ∀ (a : AwgId) (g : Awg), s.awgs[a]? = some g → ∀ n u, aget n g.progs = some u →
+  awgRec : ∀ (a : AwgId) (g : Awg), s.awgs[a]? = some g → g.fault = 0 → ∀ n u, aget n g.progs = some u →
               ∃ r, aget n s.registered = some r ∧ a ∈ r.awgs
-  dacRec : ∀ (d : DacId) (g : Dac), s.dacs[d]? = some g → ∀ n w, aget n g.progs = some w →
+  dacRec : ∀ (d : DacId) (g : Dac), s.dacs[d]? = some g → g.fault = 0 → ∀ n w, aget n g.progs = some w →
               ∃ r, aget n s.registered = some r ∧ d ∈ r.dacs
 
-def awgRecB (s : State) : Bool := allIdx s.awgs fun a g => allGet g.progs fun n _ =>
+def awgRecB (s : State) : Bool := allIdx s.awgs fun a g => decide (g.fault ≠ 0) || allGet g.progs fun n _ =>
   decide (∃ r, aget n s.registered = some r ∧ a ∈ r.awgs)
-def dacRecB (s : State) : Bool := allIdx s.dacs fun d g => allGet g.progs fun n _ =>
+def dacRecB (s : State) : Bool := allIdx s.dacs fun d g => decide (g.fault ≠ 0) || allGet g.progs fun n _ =>
   decide (∃ r, aget n s.registered = some r ∧ d ∈ r.dacs)
 def recInvB (s : State) : Bool := awgRecB s && dacRecB s
 
@@ -554,9 +606,11 @@ instance (s : State) (n : Name) (s' : State) : Decidable (ArmSpec s n s') := by
                  fun xi hx => h2 xi.2 xi.1 (List.mem_zipIdx_iff_getElem?.1 hx)⟩)
   infer_instance
 
-/-- program `n` is gone everywhere -/
+/-- program `n` is gone everywhere: from the records and from every device that obeys (a device that
+refuses to drop a program keeps it; the setup turns that into a warning) -/
 def Gone (s : State) (n : Name) : Prop :=
-  aget n s.registered = none ∧ (∀ g ∈ s.awgs, aget n g.progs = none) ∧ (∀ g ∈ s.dacs, aget n g.progs = none)
+  aget n s.registered = none ∧ (∀ g ∈ s.awgs, g.fault = 0 → aget n g.progs = none) ∧
+    (∀ g ∈ s.dacs, g.fault = 0 → aget n g.progs = none)
 
 instance (s : State) (n : Name) : Decidable (Gone s n) := by unfold Gone; infer_instance
 
@@ -570,6 +624,7 @@ def errS : Err → String
   | .valueError => "value_error"
   | .programOverwrite => "program_overwrite"
   | .unknownDevice => "unknown_device"
+  | .deviceFault => "runtime_error"
 
 def kindS : Kind → Sexp
   | .playback => .atom "pb"
@@ -632,17 +687,19 @@ def upload? : Sexp → Option Upload
       some { pid := ← nat? p, chs := ← listOf? optNat? c, mks := ← listOf? optNat? m, tfs := ← listOf? optNat? t }
   | _ => none
 
-def awgS (g : Awg) : Sexp := .list [ofNat g.nch, ofNat g.nmk, optNatS g.armed, keyedS uploadS g.progs]
+def awgS (g : Awg) : Sexp :=
+  .list [ofNat g.nch, ofNat g.nmk, optNatS g.armed, keyedS uploadS g.progs, ofNat g.fault]
 
 def awg? : Sexp → Option Awg
-  | .list [c, m, a, ps] => do
-      some { nch := ← nat? c, nmk := ← nat? m, armed := ← optNat? a, progs := ← keyed? upload? ps }
+  | .list [c, m, a, ps, f] => do
+      some { nch := ← nat? c, nmk := ← nat? m, armed := ← optNat? a, progs := ← keyed? upload? ps, fault := ← nat? f }
   | _ => none
 
-def dacS (g : Dac) : Sexp := .list [optNatS g.armed, keyedS (keyedS windowsS) g.progs]
+def dacS (g : Dac) : Sexp := .list [optNatS g.armed, keyedS (keyedS windowsS) g.progs, ofNat g.fault]
 
 def dac? : Sexp → Option Dac
-  | .list [a, ps] => do some { armed := ← optNat? a, progs := ← keyed? (keyed? windows?) ps }
+  | .list [a, ps, f] => do
+      some { armed := ← optNat? a, progs := ← keyed? (keyed? windows?) ps, fault := ← nat? f }
   | _ => none
 
 def regS (r : Reg) : Sexp :=
@@ -692,6 +749,8 @@ def op? : Sexp → Option Op
   | .list [.atom "clear"] => some .clear
   | .list [.atom "arm", n] => do some (.arm (← nat? n))
   | .list [.atom "run", n] => do some (.run (← nat? n))
+  | .list [.atom "set-fault-awg", a, m] => do some (.setFaultAwg (← nat? a) (← nat? m))
+  | .list [.atom "set-fault-dac", d, m] => do some (.setFaultDac (← nat? d) (← nat? m))
   | _ => none
 
 def cfg? : Sexp → Option (List (Nat × Nat) × Nat)
@@ -709,7 +768,8 @@ def trace (fix : Bool) : State → List Op → List Sexp
     let rw := ofBool (rewires s op)
     match stepWith fix s op with
     | .error e => .list [.atom "error", .atom (errS e), rw] :: trace fix s ops
-    | .ok s' => .list [.atom "ok", rw, stateS s'] :: trace fix s' ops
+    -- `(ok rewires state inv)`: `inv` tells whether the model's own state satisfies the routing invariant
+    | .ok s' => .list [.atom "ok", rw, stateS s', ofBool (invB s')] :: trace fix s' ops
 
 def handle : List Sexp → Sexp
   | [.atom "run", fix, cfg, .list ops] =>
